@@ -63,6 +63,34 @@ def assigned_names(stmts):
     return names, stores, calls
 
 
+def store_keys(stmts):
+    """name -> set of constant dataset keys written through it (name["key"]...[..] = / op=), or None when some store through the
+    name does not go through a constant key"""
+    out = {}
+    for s in stmts:
+        for n in ast.walk(s):
+            if isinstance(n, (ast.Assign, ast.AugAssign, ast.AnnAssign)):
+                tg = n.targets if isinstance(n, ast.Assign) else [n.target]
+                for t in tg:
+                    for m in ast.walk(t):
+                        if isinstance(m, (ast.Subscript, ast.Attribute)) and isinstance(m.ctx, ast.Store):
+                            chain = []
+                            b = m
+                            while isinstance(b, (ast.Subscript, ast.Attribute)):
+                                chain.append(b)
+                                b = b.value
+                            if isinstance(b, ast.Name):
+                                first = chain[-1]
+                                key = None
+                                if isinstance(first, ast.Subscript) and isinstance(first.slice, ast.Constant) and isinstance(first.slice.value, str):
+                                    key = first.slice.value
+                                if key is None or out.get(b.id, set()) is None:
+                                    out[b.id] = None
+                                else:
+                                    out.setdefault(b.id, set()).add(key)
+    return out
+
+
 class StmtMixin:
     def havoc_value(self, name, v, st):
         if isinstance(v, bool) or (z3.is_expr(v) and z3.is_bool(v)):
@@ -85,13 +113,14 @@ class StmtMixin:
             return SList([self.havoc_value("%s[%d]" % (name, i), x, st) for i, x in enumerate(v.items)], v.dt)
         raise Unsupported("havoc of %s : %r" % (name, type(v)))
 
-    def havoc_reachable_arrays(self, hv, v, nm):
+    def havoc_reachable_arrays(self, hv, v, nm, keys=None):
         """a store through `nm` inside a loop body where nm is a dataset / data array / view: every heap array it can reach
-        is unknown at the loop head"""
+        is unknown at the loop head (for a dataset written only through constant keys: the arrays of those variables)"""
         tn = type(v).__name__
         if tn == "SDs":
-            for d in v.vars.values():
-                self.havoc_reachable_arrays(hv, d, nm)
+            for k, d in v.vars.items():
+                if keys is None or k in keys:
+                    self.havoc_reachable_arrays(hv, d, nm)
         elif tn == "SData":
             self.havoc_reachable_arrays(hv, v.arr, nm)
         elif tn == "LArr":
@@ -502,7 +531,7 @@ class StmtMixin:
                     if isinstance(x, SArr):
                         havoc_cell(hv, x, nm)
             else:
-                self.havoc_reachable_arrays(hv, v, nm)
+                self.havoc_reachable_arrays(hv, v, nm, store_keys(s.body).get(nm))
         self.havoc_for_calls(calls, hv)
         if step > 0:
             hv.assume(zs(c) >= zs(start))
@@ -603,7 +632,7 @@ class StmtMixin:
                 if nm not in called_with:
                     self.frame_inference(m, st, v, before, pats.get(nm), set(names) | set(stores) | {tname}, "\0none", fresh_int("unused"), 0, 1)
             else:
-                self.havoc_reachable_arrays(m, v, nm)
+                self.havoc_reachable_arrays(m, v, nm, store_keys(s.body).get(nm))
         self.havoc_for_calls(calls, m)
         for cl in afters:
             m.assume(as_bool(self.eval_spec(cl.expr, m)))
@@ -708,7 +737,7 @@ class StmtMixin:
             if isinstance(v, SArr):
                 havoc_cell(hv, v, nm)
             else:
-                self.havoc_reachable_arrays(hv, v, nm)
+                self.havoc_reachable_arrays(hv, v, nm, store_keys(s.body).get(nm))
         self.havoc_for_calls(calls, hv)
         for cl in invs:
             hv.assume(as_bool(self.eval_spec(cl.expr, hv)))
